@@ -75,7 +75,7 @@ pub struct Gen<'a> {
 }
 
 const NAMES: [&str; 14] = ["a", "b", "c", "x", "y", "n", "teller", "som", "lijst", "tekst", "waarde", "één", "_t", "k2"];
-const STRS: [&str; 12] = ["", "a", "abc", "hallo wereld", "é", "aé€💖", "12", " 7 ", "{}", "x{}y", "regel\nnieuw", "tab\tquote\"back\\"];
+const STRS: [&str; 14] = ["", "a", "abc", "hallo wereld", "é", "aé€💖", "12", " 7 ", "{}", "x{}y", "regel\nnieuw", "tab\tquote\"back\\", "C:\\nieuw\\tabel", "\\\\n"];
 
 pub fn size_class(r: &mut Rng) -> i64 {
     match r.below(10) {
@@ -283,6 +283,11 @@ impl<'a> Gen<'a> {
             Ty::Arr(inner) => self.arr_expr(inner, depth, leaf),
             Ty::Func(n, ret) => self.func_literal("", *n, ret),
             Ty::Null => {
+                if !self.pure_only && self.r.chance(1, 2) {
+                    if let Some(c) = self.call_of(&Ty::Null, depth) {
+                        return c;
+                    }
+                }
                 if self.pure_only {
                     Expr::If { cond: Box::new(Expr::Bool(false)), cons: vec![Stmt::Expr(Expr::Int(1))], alt: None }
                 } else {
@@ -524,9 +529,10 @@ impl<'a> Gen<'a> {
             1 => self.var_expr(&Ty::Bool).unwrap_or(Expr::Bool(true)),
             2..=4 => {
                 let op = *self.r.pick(&[Op::Lt, Op::Lte, Op::Gt, Op::Gte, Op::Eq, Op::Neq]);
-                if self.profile == Profile::Fusable || self.r.chance(1, 3) {
+                if self.profile == Profile::Fusable || self.r.chance(1, 3) || (self.in_function() && self.r.chance(1, 2)) {
                     let v = self.var_expr(&Ty::Int).unwrap_or_else(|| int(self.small_int()));
-                    let l = Expr::Int(self.r.range(0, 20));
+                    // inside functions the variable is often a parameter holding a small number: stay close to it
+                    let l = Expr::Int(if self.in_function() { self.r.range(0, 6) } else { self.r.range(0, 20) });
                     if self.r.chance(1, 2) {
                         infix(v, op, l)
                     } else {
@@ -723,11 +729,21 @@ impl<'a> Gen<'a> {
             let e = self.expr(ret, 2);
             body.push(Stmt::Expr(Expr::If { cond: Box::new(c), cons: vec![Stmt::Return(e)], alt: None }));
         }
-        let e = self.expr(ret, 1);
-        if self.r.chance(1, 3) {
-            body.push(Stmt::Return(e));
+        if *ret == Ty::Null {
+            // a procedure: the body ends in a declaration (or in nothing at all), so the call yields null
+            if self.r.chance(2, 3) || body.is_empty() && self.r.chance(1, 2) {
+                let init = self.expr(&Ty::Int, 2);
+                body.push(Stmt::Let(format!("slot{}", self.name_counter), init));
+            } else if !matches!(body.last(), Some(Stmt::Let(..)) | None) {
+                body.clear();
+            }
         } else {
-            body.push(Stmt::Expr(e));
+            let e = self.expr(ret, 1);
+            if self.r.chance(1, 3) {
+                body.push(Stmt::Return(e));
+            } else {
+                body.push(Stmt::Expr(e));
+            }
         }
         self.cx().scopes.pop();
         self.max_depth = saved_depth;
@@ -950,10 +966,11 @@ impl<'a> Gen<'a> {
             format!("f{}", self.name_counter)
         };
         let nparams = self.r.range(0, if self.profile == Profile::Calls { 4 } else { 2 }) as usize;
-        let ret = match self.r.below(6) {
+        let ret = match self.r.below(7) {
             0 => Ty::Str,
             1 => Ty::Arr(Box::new(Ty::Int)),
             2 => Ty::Float,
+            3 => Ty::Null,
             _ => Ty::Int,
         };
         let recursive = nparams >= 1 && self.ctxs.len() == 1 && self.ctxs[0].scopes.len() == 1 && ret == Ty::Int && self.r.chance(1, 3);
